@@ -31,6 +31,9 @@ pub struct ServerPlan {
     pub api: ApiKind,
     /// run-time per-endpoint override used by the Sink API ("rt" endpoints)
     pub rt_override: Option<usize>,
+    /// serve HTTPS (exercises HttpsAcceptor)
+    #[serde(default)]
+    pub tls: bool,
 }
 
 /// Bytes are kept as a lossless latin-1 style string when printable, else
@@ -118,6 +121,10 @@ pub enum Expect {
         digest: u64,
         /// for typed bodies shorter than any valid document
         may_be_invalid: bool,
+        /// Content-Length and Transfer-Encoding both present: the server may
+        /// reject the request outright
+        #[serde(default)]
+        may_reject: bool,
         streaming: bool,
         /// what the handler must report as delivered length
         payload_len: usize,
@@ -191,6 +198,8 @@ pub enum ConnKind {
     /// websocket style: after the 101 the rest of the stream is raw bytes
     Upgrade,
     H2,
+    /// HTTP/1.1 over TLS (rustls client over the simulated wire)
+    Tls,
 }
 
 #[derive(Clone, Debug, Serialize, Deserialize, PartialEq)]
